@@ -1066,6 +1066,27 @@ type dbxGenState struct {
 var dbxFlagPool = []string{`\Seen`, `\seen`, `\Flagged`, `\Answered`, `\Draft`, `\Deleted`, "custom", "Custom", "$Forwarded", "x.y"}
 var dbxNamePool = []string{"INBOX", "Sent", "Archive", "Folder.a", "Folder.b", "Trash", "inbox"}
 
+// dbxCaseVariant: the flag as it is, lower-cased, upper-cased, or with the case of one letter flipped
+func dbxCaseVariant(r *Rng, f string) string {
+	switch r.Intn(5) {
+	case 0:
+		return strings.ToLower(f)
+	case 1:
+		return strings.ToUpper(f)
+	case 2:
+		b := []byte(f)
+		i := r.Intn(len(b))
+		switch {
+		case b[i] >= 'a' && b[i] <= 'z':
+			b[i] -= 32
+		case b[i] >= 'A' && b[i] <= 'Z':
+			b[i] += 32
+		}
+		return string(b)
+	}
+	return f
+}
+
 func (g *dbxGenState) refresh() {
 	m := dbxMirror{member: map[int][]int{}}
 	_ = g.s.query("SELECT id, remote_id, name FROM mailboxes_v2 ORDER BY id", 3, func(v []any) {
@@ -1355,7 +1376,8 @@ func (g *dbxGenState) callTok(name string) string {
 	case "UpdateRemoteMessageID":
 		return name + ":" + g.msg() + ":" + fmt.Sprintf("z%d", r.Range(0, 50))
 	case "AddFlagToMessages", "RemoveFlagFromMessages":
-		return name + ":" + g.msgList(g.m.msgs, g.smallLen()) + ":" + Pick(r, dbxFlagPool)
+		// several spellings of one flag: the INSERT is case-sensitive, the DELETE is COLLATE NOCASE
+		return name + ":" + g.msgList(g.m.msgs, g.smallLen()) + ":" + dbxCaseVariant(r, Pick(r, dbxFlagPool))
 	case "SetFlagsOnMessages":
 		return name + ":" + g.msgList(g.m.msgs, g.smallLen()) + ":" + g.flagSet(false)
 	case "AddDeletedSubscription":
@@ -1519,8 +1541,8 @@ func (g *dbxGenState) bulkSession(L int) {
 	}, true)
 	g.tx(true, []string{
 		"SetMailboxMessagesDeletedFlag:1:" + all + ":1",
-		"AddFlagToMessages:" + all + ":" + Pick(r, dbxFlagPool),
-		"RemoveFlagFromMessages:" + dbxRange(min(2, L), L) + ":" + Pick(r, dbxFlagPool),
+		"AddFlagToMessages:" + all + ":" + dbxCaseVariant(r, Pick(r, dbxFlagPool)),
+		"RemoveFlagFromMessages:" + dbxRange(min(2, L), L) + ":" + dbxCaseVariant(r, Pick(r, dbxFlagPool)),
 		"GetMailboxRecentCount:1",
 	}, true)
 	g.toks = append(g.toks, "dump")
